@@ -174,7 +174,7 @@ def run_tlc(module, cfg, workers=None, timeout=600, extra_files=None, simulate=N
     m = re.search(r"Invariant (\S+) is violated", r.out)
     if m:
         r.violated = m.group(1)
-    m2 = re.search(r"Temporal properties were violated|Action property (\S+) is violated|Deadlock reached", r.out)
+    m2 = re.search(r"Temporal propert[^\n]* violated|Action property (\S+) is violated|Deadlock reached", r.out)
     if m2 and not r.violated:
         r.violated = m2.group(0)
     if re.search(r"postcondition.*(violated|false)|POSTCONDITION.*(violated|false)", r.out, re.I):
@@ -389,7 +389,7 @@ class Run:
 TRACE_CFG = "SPECIFICATION Spec\nPOSTCONDITION Accepted\nCHECK_DEADLOCK FALSE\n"
 
 
-def _validate_chunk(module, chunk, timeout, cfg, max_rej, stateful):
+def _validate_chunk(module, chunk, timeout, cfg, max_rej, stateful, resync=None):
     """Validate one list of events with one or more TLC runs.
     Stateless traces (each event judged on its own) continue after a rejected event;
     stateful traces stop at the first rejection."""
@@ -417,22 +417,72 @@ def _validate_chunk(module, chunk, timeout, cfg, max_rej, stateful):
         rejected.append(rest[n_ok])
         if stateful or len(rejected) >= max_rej:
             break
-        rest = rest[n_ok + 1:]
+        if resync:
+            # job-structured trace: drop the rest of the rejected job, resume at the next job start
+            j = n_ok + 1
+            while j < len(rest) and not resync(rest[j]):
+                j += 1
+            # the accepted prefix may contain the beginning of the rejected job; it is not re-counted
+            rest = rest[j:]
+        else:
+            rest = rest[n_ok + 1:]
     return accepted, rejected, gen
 
 
-def validate_trace(module, events, nsplit=None, timeout=900, cfg=TRACE_CFG, max_rej=3, stateful=False):
+def validate_trace(module, events, nsplit=None, timeout=900, cfg=TRACE_CFG, max_rej=3, stateful=False, groups=None, resync=None):
     """Channel T: TLC validates recorded events against spec/<module>.tla (Spec, Accepted).
     Returns (accepted_count, rejected_events, states_generated)."""
     from concurrent.futures import ThreadPoolExecutor
-    if not events:
+    if not events and not groups:
         return 0, [], 0
-    if stateful:
+    if groups is not None:
+        # groups: list of event lists (one per job); keep jobs whole, deal them round-robin
+        k = max(1, min(nsplit or NCPU, len(groups)))
+        chunks = [[e for g in groups[i::k] for e in g] for i in range(k)]
+        chunks = [c for c in chunks if c]
+    elif stateful:
         chunks = [events]
     else:
         k = max(1, min(nsplit or NCPU, len(events)))
         chunks = [events[i::k] for i in range(k)]
     with ThreadPoolExecutor(max_workers=len(chunks)) as ex:
-        futs = [ex.submit(_validate_chunk, module, c, timeout, cfg, max_rej, stateful) for c in chunks]
+        futs = [ex.submit(_validate_chunk, module, c, timeout, cfg, max_rej, stateful, resync) for c in chunks]
         res = [f.result() for f in futs]
     return sum(a for a, _, _ in res), [e for _, rj, _ in res for e in rj], sum(g for _, _, g in res)
+
+
+# ---------------------------------------------------------------- workflow driver pool
+def run_hz_jobs(hz, command, jobs, nproc=None, timeout=1200, taskset=None, env=None, key="jobs"):
+    """Split `jobs` over several hz processes; returns the result rows in job order (by "id")."""
+    from concurrent.futures import ThreadPoolExecutor
+    if not jobs:
+        return []
+    k = max(1, min(nproc or NCPU, len(jobs)))
+    tmp = scratch("hzjobs")
+    parts = [jobs[i::k] for i in range(k)]
+
+    def one(idx):
+        jp = os.path.join(tmp, "job%d.json" % idx)
+        op = os.path.join(tmp, "out%d.ndjson" % idx)
+        with open(jp, "w") as fh:
+            json.dump({key: parts[idx]}, fh)
+        p = run_bin(hz, [command, jp, op], timeout=timeout, taskset=taskset, env=env)
+        rows = read_ndjson(op) if os.path.exists(op) else []
+        return p, rows
+
+    with ThreadPoolExecutor(max_workers=k) as ex:
+        res = list(ex.map(one, range(k)))
+    rows = {}
+    crashed = []
+    for idx, (p, rs) in enumerate(res):
+        for r in rs:
+            rows[r["id"]] = r
+        if p.returncode != 0 or len(rs) != len(parts[idx]):
+            # the process died (worker panic, runtime fatal error, watchdog): the first job without a row is the culprit
+            done = {r["id"] for r in rs}
+            missing = [j for j in parts[idx] if j["id"] not in done]
+            crashed.append({"rc": p.returncode, "timed_out": getattr(p, "timed_out", False),
+                            "stderr": (p.stderr or "")[-3000:], "first_missing": missing[0] if missing else None,
+                            "missing": [j["id"] for j in missing]})
+    shutil.rmtree(tmp, ignore_errors=True)
+    return rows, crashed
